@@ -25,6 +25,7 @@ import (
 	sdk "github.com/cosmos/cosmos-sdk/types"
 	bank "github.com/cosmos/cosmos-sdk/x/bank/types"
 	stakingkeeper "github.com/cosmos/cosmos-sdk/x/staking/keeper"
+	stakingtypes "github.com/cosmos/cosmos-sdk/x/staking/types"
 	gethcommon "github.com/ethereum/go-ethereum/common"
 	"github.com/ethereum/go-ethereum/crypto"
 
@@ -32,7 +33,6 @@ import (
 
 	"github.com/NibiruChain/nibiru/v2/app"
 	"github.com/NibiruChain/nibiru/v2/eth"
-	"github.com/NibiruChain/nibiru/v2/x/common/asset"
 	"github.com/NibiruChain/nibiru/v2/x/common/testutil"
 	devgastypes "github.com/NibiruChain/nibiru/v2/x/devgas/v1/types"
 	epochstypes "github.com/NibiruChain/nibiru/v2/x/epochs/types"
@@ -160,7 +160,7 @@ func newC20World(t *testing.T) *c20World {
 		w.must(c.Fund(u, Unibi(1e12)))
 	}
 	// the genesis validator + two created through the staking message server
-	c.App.StakingKeeper.IterateValidators(c.Ctx(), func(_ int64, v stakingtypesValidatorI) bool {
+	c.App.StakingKeeper.IterateValidators(c.Ctx(), func(_ int64, v stakingtypes.ValidatorI) bool {
 		w.vals = append(w.vals, v.GetOperator())
 		return false
 	})
@@ -480,14 +480,13 @@ func (w *c20World) apply(op c20Op) {
 // rates string over the currently whitelisted pairs (first two), variant-dependent
 func c20Rates(ctx sdk.Context, k oraclekeeper.Keeper, variant int) string {
 	pairs := k.GetWhitelistedPairs(ctx)
-	var parts []string
+	var ts oracletypes.ExchangeRateTuples
 	for i, p := range pairs {
 		if i >= 2 {
 			break
 		}
-		parts = append(parts, oracletypes.ExchangeRateTuple{Pair: p, ExchangeRate: sdkmath.LegacyNewDec(int64(10*(i+1) + abs(variant)%3))}.String())
+		ts = append(ts, oracletypes.ExchangeRateTuple{Pair: p, ExchangeRate: sdkmath.LegacyNewDec(int64(10*(i+1) + abs(variant)%3))})
 	}
-	_ = asset.Pair("")
-	s, _ := c20TuplesString(parts)
+	s, _ := ts.ToString()
 	return s
 }
